@@ -17,6 +17,7 @@ RULE = ("(00) Halton samplers driven by a random source that answers every integ
         "seeds, 1-5 successive batch sizes on one object and a twin drawing the total in one batch. Non-trivial = >= 2 "
         "batches on one object and d >= 3 (samplers), d >= 2 and n_start >= 2^16 or size >= 2 (function), >= 2 calls with a "
         "cache extension after a cache hit (primes).")
+RULE = RULE.replace('and a twin drawing the total in one batch.', 'and a twin drawing the total in one batch; calls the sampler rejects and earlier batches on a space of another dimension may precede.')
 ASSUMPTIONS = ["base-2 coordinates of indices < 2^17 are exact elements of the 2^-17 grid, so the index is decoded by bit "
                "reversal of coordinate 0; other coordinates are compared within half a grid step",
                "R-sequence increments compared within one grid step + 1e-9 (n*alpha rounding at n ~ 1e5)"]
